@@ -1020,6 +1020,11 @@ func (x *Ex) call(v *ast.CallExpr, want *Sort) *T {
 			ref = sapp("sl_arr", a.S)
 		}
 		return mk(sapp("and", sapp(">=", ref, oldNext.S), sapp("<", ref, x.cur.next().S)), sBool)
+	case "sameArray":
+		argN(2)
+		a := x.tr(v.Args[0], nil)
+		b := x.tr(v.Args[1], nil)
+		return mk(sapp("=", sapp("sl_arr", a.S), sapp("sl_arr", b.S)), sBool)
 	case "allocated":
 		argN(1)
 		a := x.tr(v.Args[0], nil)
